@@ -163,11 +163,17 @@ pub fn run(args: &Args) {
             if cname != "cost-extremes" {
                 // (cost extremes x > 32768 tokens is the recorded i32 finding of C02; lengths are exercised with ordinary costs)
                 let li = long_inputs();
+                // accepted by start_build (<= 49,149 bytes) but longer than 65,535 bytes once normalised: rejected at commit
+                texts.push(("long:fdfa-then-ascii".into(), format!("{}{}", "\u{fdfa}".repeat(1000), "a".repeat(46000))));
+                texts.push(("hostile".into(), "東京都に行った。".to_string()));
+                texts.push(("long:ascii-max".into(), "a".repeat(MAX_LENGTH)));
                 let take = if args.thorough() { li.len() } else { 10 };
                 let start = (rng.below(li.len() as u64)) as usize;
                 for k in 0..take {
                     let (n, t) = &li[(start + k * 7) % li.len()];
                     texts.push((format!("long:{}", n), t.clone()));
+                    // a short text right after every long one, on the same tokenizer
+                    texts.push(("hostile".into(), "京都に行った".to_string()));
                 }
             }
         }
@@ -194,6 +200,17 @@ pub fn run(args: &Args) {
                         sink.tag(&format!("outcome=err:{}", if e == "InputTooLong" { "InputTooLong" } else { "other" }));
                         if text.len() <= MAX_LENGTH && e != "InputTooLong" {
                             sink.fail(id, &format!("error {} for an input within the limits with a fallback OOV provider: {:?}", e, shown), "");
+                        } else if text.len() * 18 <= 65535 {
+                            // no character grows more than 18-fold under NFKC / lower-casing: the normalised form fits
+                            sink.fail(id, &format!("InputTooLong for an input of {} bytes whose normalised form cannot exceed 65,535 bytes: {:?}", text.len(), shown), "");
+                        }
+                        // a rejected input leaves the tokenizer usable
+                        match analyse(&dict, &mut tok, Mode::C, "東京都") {
+                            Ok(Ok((n, true))) if n > 0 => {}
+                            other => {
+                                sink.fail(id, &format!("after the rejected input {:?} the same tokenizer answers {:?} for \"東京都\"", shown, other), "");
+                                tok = StatefulTokenizer::new(&dict, Mode::C);
+                            }
                         }
                     }
                     Ok(Ok((_, lossless))) => {
